@@ -79,7 +79,8 @@ def runCtxCfg (c : Cfg) (shape : Shape) (ctx : CallerCtx) (h : Handler) (cs : Li
   match «open» shape with
   | .ok =>
     ctxView (startStream c ctx)
-      (go (impl c) (h (startStream c ctx)).2 reuse {} false (.running (h (startStream c ctx)).1) (clientOps shape cs))
+      (hold (holds c shape) (h (startStream c ctx)).2 (canon (h (startStream c ctx)).2)
+        (go (impl c) (h (startStream c ctx)).2 reuse {} false (.running (h (startStream c ctx)).1) (clientOps shape cs)))
   | o => openErrT o
 
 def runCtx (shape : Shape) (ctx : CallerCtx) (h : Handler) (cs : List COp) (reuse : Bool := false) :
@@ -100,7 +101,8 @@ def serverCtx (ctx : CallerCtx) : SrvCtx :=
 def runCtx (shape : Shape) (ctx : CallerCtx) (h : Handler) (cs : List COp) (reuse : Bool := false) :
     Transcript :=
   ctxView (serverCtx ctx)
-    (go impl (h (serverCtx ctx)).2 reuse {} false (.running (h (serverCtx ctx)).1) (clientOps shape cs))
+    (hold (holds shape) (h (serverCtx ctx)).2 (statusEv (h (serverCtx ctx)).2)
+      (go impl (h (serverCtx ctx)).2 reuse {} false (.running (h (serverCtx ctx)).1) (clientOps shape cs)))
 
 end GrpcRef
 
